@@ -14,7 +14,12 @@ from .c01 import ValView, VALUE
 from .c07 import _flat
 
 BV64 = z3.BitVecSort(64)
-MAXLEN = 3
+MAXLEN = 3      # remaining elements of a wrapped stream (5 in the thorough tier)
+
+
+def _tier(tier):
+    global MAXLEN
+    MAXLEN = 3 if tier == 'quick' else 5
 
 
 class StreamWorld:
@@ -163,6 +168,7 @@ def k3_take(res, tier):
     """TakeIterator::next / current on an arbitrary state: while fewer than take_count elements were delivered it pulls exactly one
     element from the wrapped stream and delivers it; once take_count were delivered it answers false WITHOUT touching the wrapped
     stream (nothing is consumed beyond what take hands out)"""
+    _tier(tier)
     W = StreamWorld()
     e, P = W.e, W.P
     fnext, sd = _adaptor_fn(P, 'TakeIterator', 'next')
@@ -205,6 +211,7 @@ def k3_take(res, tier):
 def k3_map(res, tier):
     """MapIterator::next / current: pulls one element, applies the callback to exactly that element once, delivers the callback's
     result; errors of the stream or the callback propagate"""
+    _tier(tier)
     W = StreamWorld()
     e, P = W.e, W.P
     fnext, sd = _adaptor_fn(P, 'MapIterator', 'next')
@@ -239,6 +246,7 @@ def k3_map(res, tier):
 def k3_filter(res, tier):
     """FilterIterator::next / current: pulls elements left to right, tests each exactly once, stops at the first one the predicate
     accepts and delivers that very element; every element before it was rejected"""
+    _tier(tier)
     W = StreamWorld()
     e, P = W.e, W.P
     fnext, sd = _adaptor_fn(P, 'FilterIterator', 'next')
